@@ -19,6 +19,9 @@ def line_text(chrom, pad, k, ch="x"):
 def make_file(runs, pads, final_nl, ch="x", eol="\n"):
     """runs: list of run lengths; pads: per-line pad sizes -> (text, expected index)"""
     names = ["chrA", "chrB", "c", "chrDD", "e5"]
+    if ch == "S":
+        # the shortest lines a three-column BED can have (one-character names, one-digit coordinates: 6 bytes) on EVERY chromosome
+        names, ch = ["1", "X", "c", "7", "e"], "x"
     lines, want, off, k = [], [], 0, 0
     text = ""
     for ci, rl in enumerate(runs):
@@ -88,6 +91,7 @@ class C18(Prop):
         files = [(r_, p_, n_, "x") for (r_, p_, n_) in files] + \
                 [(r_, [q // 2 for q in p_], n_, "é") for i, (r_, p_, n_) in enumerate(files) if max(p_) > 3 and i % 2 == 0]
         # three-column lines ending in CR LF, or with a blank after the end coordinate (the readers trim both)
+        files += [(r_, p_, n_, "S") for (r_, p_, n_) in files0 if max(p_) == 0]
         files = [f + ("\n",) for f in files] + \
                 [(r_, p_, n_, "x", eol) for i, (r_, p_, n_) in enumerate(files0) if max(p_) == 0 for eol in ("\r\n", " \n")]
         for (runs, p, nl, ch, eol) in files:
@@ -99,7 +103,9 @@ class C18(Prop):
             c.tags.add(f"index_chroms{len(runs)}")
             if max(p) > 3:
                 c.tags.add("index_long_line")
-            if ch != "x":
+            if ch == "S":
+                c.tags.add("index_shortest_lines")
+            elif ch != "x":
                 c.tags.add("index_multibyte_text")
             if len(runs) >= 2:
                 c.tags.add("nt")
@@ -112,6 +118,19 @@ class C18(Prop):
                     c.tags.add("chunks")
                     if nlines >= 2:
                         c.tags.add("nt")
+                    out.append(c)
+                    k += 1
+        # longer runs of the shortest lines (6–8 bytes) on 2–5 chromosomes: the bisection narrows to a few bytes above a line start
+        for nruns in range(2, 6):
+            for nlines in range(1, 7):
+                for variant in (0, 1):
+                    text = ""
+                    for ri in range(nruns):
+                        cname = ["1", "2", "3", "X", "Y"][ri]
+                        for l in range(nlines):
+                            text += f"{cname}\t{l}\t{l + 1}\n" if (variant == 0 or (ri + l) % 2 == 0) else f"{cname}\t{10 + l}\t{20 + l}\n"
+                    c = CaseT(f"ix{k}", "index", [], ["TEXT " + text.encode().hex()])
+                    c.tags |= {"index", "index_shortest_lines", f"index_chroms{nruns}", "nt"}
                     out.append(c)
                     k += 1
         # lines longer than the 8 KiB buffer of the BufReader the chunker reads through (a bed12 record with thousands of blocks, a
